@@ -297,6 +297,8 @@ def simp(t):
             n = negate(x)
             if key(n) < key(x):
                 return ("call", "abs", (n,), t[3])
+        if name in ("max", "min") and len(args) == 1 and args[0][0] in ("list", "tup") and len(args[0][1]) > 1 and not t[3]:
+            return simp(("call", name, args[0][1], t[3]))
         if name in ("max", "min") and len(args) > 1 and not t[3]:
             return ("call", name, tuple(sorted(args, key=key)), t[3])
         return t
@@ -760,7 +762,15 @@ class SymX:
             it = it.args[0]
         if isinstance(it, ast.Subscript) and isinstance(it.slice, ast.Slice):
             loop.whole = False
-        return self.expr(it, st, f, depth)
+        t = self.expr(it, st, f, depth)
+        if self.unroll_literals and t[0] == "call" and t[1] == "zip" and len(t[2]) >= 2 and not t[3]:
+            # zip(("a", "b", "c"), xs): a literal table of names paired with the slots of a tuple-valued term
+            lits = [a for a in t[2] if a[0] in ("tup", "list")]
+            if lits:
+                n = min(len(a[1]) for a in lits)
+                if n <= 8:
+                    return ("list", tuple(("tup", tuple(a[1][i] if a[0] in ("tup", "list") else simp(("idx", a, C(i))) for a in t[2])) for i in range(n)))
+        return t
 
     def _bind_loop_target(self, tgt, loop, st, f, depth):
         elem = ("elem", loop.id)
@@ -1190,6 +1200,10 @@ class SymX:
         name = call_name(c)
         args = tuple(ev(a) for a in c.args)
         kws = tuple((k.arg, ev(k.value)) for k in c.keywords)
+        if name == "setattr" and len(args) == 3 and is_const(args[1]) and isinstance(args[1][1], str) and not kws:
+            st.heap[(args[0], args[1][1])] = args[2]
+            st.effects.append((self._alive(st), "store", args[0], args[1][1], args[2]))
+            return C(None)
         if name == "getattr" and len(args) == 2 and is_const(args[1]) and isinstance(args[1][1], str) and not kws:
             k_ = (args[0], args[1][1])
             return st.heap[k_] if k_ in st.heap else ("attr", args[0], args[1][1])
